@@ -112,7 +112,7 @@ def run(tier, seed, replay=None):
             out.case(text)
             out.count("position", pos.split("<")[0] if not pos.startswith("exec2") else "exec2")
             out.count("verdict", impl)
-            if dec.reason.startswith("parse error"):
+            if impl == "ask" and lib.parser_rejects(text):
                 out.count("parser", "rejected")
             # AST coverage tie: every executable node of the real AST lies inside the closure of the
             # specification [sub] the completeness theorem is stated over
@@ -163,7 +163,9 @@ def run(tier, seed, replay=None):
                 an.analyze = real_analyze
             if not ds:
                 return ["none"]
-            if len(ds) == 1 and ds[0].action == "ask" and ds[0].reason == "complex substitution" and not seen_inner:
+            # "too complex to delimit": one ask that is not the verdict of an analysed substitution (no inner analysis
+            # ran, the decision wraps no child) - recognised by structure, not by the wording of the reason
+            if len(ds) == 1 and ds[0].action == "ask" and not seen_inner and not getattr(ds[0], "children", None):
                 return ["complex"]
             return ["subs", list(seen_inner)]
 
@@ -186,11 +188,34 @@ def run(tier, seed, replay=None):
                         out.count("raw_scan", "approved-program")
                 except (lib.Timeout, RecursionError):
                     pass
+        # ---- variables that decide what runs: setting one in front of (or before) an approved command is never approved.
+        # The list is the harness's own (not read from the source): the loader, the shell's lookup and start-up files,
+        # interpreters' start-up hooks, helpers that tools start.
+        core_vars = ["PATH", "LD_PRELOAD", "LD_LIBRARY_PATH", "BASH_ENV", "ENV", "IFS", "PS4", "PROMPT_COMMAND", "SHELLOPTS", "CDPATH", "HOME",
+                     "PYTHONPATH", "PYTHONSTARTUP", "PERL5OPT", "PERL5LIB", "RUBYOPT", "NODE_OPTIONS", "PAGER", "EDITOR", "VISUAL", "LESSOPEN",
+                     "GIT_SSH_COMMAND", "GIT_EXTERNAL_DIFF", "GIT_PAGER", "DYLD_INSERT_LIBRARIES"]
+        for var in core_vars:
+            for tmpl in ("{V}=./x ls", "A=1 {V}=./x ls", "{V}=./x B=2 cat f", "{V}=./x; ls", "{V}+=:./x ls", "env {V}=./x ls", "env -i {V}=./x ls",
+                         "{V}=./x time ls", "time {V}=./x ls", "if {V}=./x ls; then ls; fi", "echo $({V}=./x ls)", "( {V}=./x; ls )", "{V}=./x sh -c ls",
+                         "{V}='./x' ls", "{V}=\"./x\" ls", "{V}=$(echo ./x) ls"):
+                text = tmpl.replace("{V}", var)
+                try:
+                    v = an.analyze(text, cfg, Path(cwd)).action
+                except Exception:
+                    v = "exception"
+                out.case(["execvar", text])
+                out.count("position", "execution-variable")
+                if v == "allow":
+                    out.violations.append({"kind": "execution-variable", "what": f"approved although it sets {var}, which decides what the command after it runs",
+                                           "program": text, "position": "execution-variable", "config": bx.config_text(cwd), "cwd": cwd, "signature_text": text})
+                mv = model_analyze(model, cfg, text, cwd)
+                if mv != v:
+                    out.disagreements.append({"correspondence": "Walker.analyze_nodes <-> analyzer.analyze", "program": text, "model": mv, "impl": v})
         # ---- function-level ties of the text guards and scanners (token-exhaustive, see harness/funcs.py); an input
         # on which model and implementation differ is turned into programs (the neutral token becomes a logging
         # command) and, when the implementation approves one, it joins the ground-truth run below
         from . import funcs
-        diffs = funcs.run_ties(out, model, ["unclosed_arith", "count_openers", "plain_raw"], tier, rng, an)
+        diffs = funcs.run_ties(out, model, ["unclosed_arith", "count_openers", "plain_raw", "sets_execution_var"], tier, rng, an)
         for name, strs in diffs.items():
             for raw in strs:
                 body = raw.replace("a", "rm x")
